@@ -687,6 +687,22 @@ package group
 //@        && len(arg_hashedPassword) == len(*p.Key) && (forall i int :: 0 <= i && i < len(*p.Key) ==> arg_hashedPassword[i] == (*p.Key)[i])
 //@   proves bcrypt-result: p.Type == "bcrypt" && p.Key != nil ==> result0 == (callresult("CompareHashAndPassword", 1) == nil)
 //@
+//@ -- C08/C17: a password record survives being written back: the compact form (a bare JSON string) is used only for a plain password that
+//@ -- HAS a key - a plain record without key was written as null, and null was read back as the empty plain password, which the empty
+//@ -- password matches (both repaired)
+//@ func (Password).MarshalJSON
+//@   props C08 C17 C12
+//@   modifies nothing
+//@   assert at call Marshal#1 compact-has-key: p.Type == "plain" && p.Key != nil && arg_v != nil
+//@
+//@ func (*Password).UnmarshalJSON
+//@   strext
+//@   props C08 C17 C12
+//@   requires nonnil: p != nil
+//@   modifies *p
+//@   -- "password": null is no password (it never matches), not the empty password
+//@   ensures null-is-none: len(b) == 4 && b[0] == 110 && b[1] == 117 && b[2] == 108 && b[3] == 108 ==> isnil(result) && p.Type == "" && p.Key == nil
+//@
 //@ spec pwmatch(p Password, pw string) bool = first(call("(group.Password).Match", p, pw))
 //@
 //@ func (*Description).getPasswordPermission
